@@ -1,5 +1,6 @@
 import FxVerif.Model.C19
 import FxVerif.Proofs.C19
+import FxVerif.Proofs.C19Ledger
 /-!
 # C19 — IBC transfer middleware: inbound credit or error, memo-call sender, refund exactly once, relation removed
 
@@ -468,6 +469,31 @@ theorem send_records_own_key (s : State) (l : Ch) (a : Addr) (t : Tok) (amt : Na
     | none => rfl
     | some b => simp [sendCtl, sendKey]
 
+/-! ## 6. the ledger -/
+
+/-- Every ERC-20 token in existence is backed, one to one, by a coin escrowed in the erc20 module account — in every
+state reachable by ANY list of operations on user accounts (receives of every denomination class and outcome, EVM- and
+cosmos-started transfers, success / error acknowledgements, timeouts, duplicated and failing settlements, on any
+channels), for every token contract, and for EVERY configuration of the callbacks (the statement does not depend on the
+regenerated facts): no credit and no refund ever mints an ERC-20 token without locking its coin, and none is ever
+minted twice for one coin.  `supply t` is the sum of all ERC-20 balances of token `t`; `userOnly`: senders and receivers
+are not module accounts (the bank keeper blocks those). -/
+theorem erc20_supply_backed (cfg : Cfg) (ops : List Op) (hu : ∀ op ∈ ops, userOnly op) (t : ETok) :
+    supply t (runWith cfg init ops).bal = sget (runWith cfg init ops).bal.bank (erc20Mod, denomOfE t) :=
+  (backed_run cfg ops init hu backed_init (fun _ hx => absurd hx List.not_mem_nil)).eq t
+
+-- non-vacuity: a run with credits, a refund and a success acknowledgement; supply of the aliased token's ERC-20 is 130
+example : (∀ op ∈ [Op.chan 0 1, .fund 5 .A 0 100, .fund 6 .A 0 70, .send 0 5 .A 40, .send 0 6 .A 30, .settle 0 1 .timeout,
+      .settle 0 2 .ackOk, .recv 0 .V .hex 7 9 .none 0], userOnly op) ∧
+    supply .base (run init [Op.chan 0 1, .fund 5 .A 0 100, .fund 6 .A 0 70, .send 0 5 .A 40, .send 0 6 .A 30,
+      .settle 0 1 .timeout, .settle 0 2 .ackOk, .recv 0 .V .hex 7 9 .none 0]).bal = 140 ∧
+    supply (.v 0) (run init [Op.chan 0 1, .fund 5 .A 0 100, .fund 6 .A 0 70, .send 0 5 .A 40, .send 0 6 .A 30,
+      .settle 0 1 .timeout, .settle 0 2 .ackOk, .recv 0 .V .hex 7 9 .none 0]).bal = 9 := by
+  refine ⟨?_, by decide, by decide⟩
+  intro op hop
+  simp only [List.mem_cons, List.not_mem_nil, or_false] at hop
+  rcases hop with h | h | h | h | h | h | h | h <;> subst h <;> simp [userOnly, userAddr]
+
 -- non-vacuity: `done` settlements, successful and failing receives of every class exist on reachable states
 example : (step (run init [.chan 0 1, .fund 5 .A 0 100, .send 0 5 .A 40]) (.settle 0 1 .ackErr)).2 = .done 100 0 0 0 100 [] := by
   decide
@@ -505,7 +531,7 @@ Theorems of this file:
   relation_removed_always_reachable, relation_records_are_inflight, evm_transfer_settled_one_way,
   genCfg_is_ref, success_ack_keeps_relation_witness, success_ack_removes_relation_fixed,
   success_ack_keeps_relation_general, crossed_channels_wrong_end_witness, returning_native_coin_guard_witness,
-  settled_is_final, relation_key_text, relation_key_injective, send_records_own_key
+  settled_is_final, relation_key_text, relation_key_injective, send_records_own_key, erc20_supply_backed
 -/
 
 end FxVerif.Props.C19
